@@ -43,6 +43,8 @@ def run(ck: Checker):
             if n.kind == 'test' and isinstance(n.ast, ast.Compare) and dotted(n.ast.left) == 'self.exitcode' and is_none(n.ast.comparators[0]):
                 dead[n.id] = 'F' if isinstance(n.ast.ops[0], ast.Is) else 'T'
         joins = {n.id for n in cfg.nodes if header_expr(n) is not None and any(method_of(c)[1] == 'join' and isinstance(method_of(c)[0], ast.Call) and dotted(method_of(c)[0].func) == 'super' and not c.args and not c.keywords for c in calls_in(header_expr(n)))}
+        # an untimed wait on the process sentinel (readable exactly when the child has exited) observes it dead too
+        joins |= {n.id for n in cfg.nodes if header_expr(n) is not None and any((dotted(c.func) or '').endswith('connection.wait') and len(c.args) == 1 and not c.keywords and 'self.sentinel' in norm_text(c.args[0]) for c in calls_in(header_expr(n)))}
         for p_ in pn:
             n1 += 1
             path = path_avoiding(cfg, [cfg.entry], {p_.id}, avoid=joins, edge_ok=lambda e: not (e.src in dead and e.kind == dead[e.src]))
@@ -58,7 +60,11 @@ def run(ck: Checker):
     mk = [n for n in cfg.nodes if isinstance(n.ast, ast.Assign) and isinstance(n.ast.value, ast.Call) and (dotted(n.ast.value.func) or '').endswith('QueueHandler')]
     add = [n for n in cfg.nodes if header_expr(n) is not None and any(method_of(c)[1] == 'addHandler' for c in calls_in(header_expr(n)))]
     rem = [n for n in cfg.nodes if header_expr(n) is not None and any(method_of(c)[1] == 'removeHandler' for c in calls_in(header_expr(n)))]
-    ck.need(target and mk and add and rem, f'{f.key}: target call / QueueHandler / addHandler / removeHandler not found')
+    ck.need(target and mk, f'{f.key}: target call / QueueHandler not found')
+    if not add or not rem:
+        ck.ob('C20-2', f, mk[0].ast, False, 'the queue handler is created but never installed on (or never removed from) the root logger: no record of the child is forwarded' if not add else 'the queue handler is never removed')
+        add = add or mk
+        rem = rem or mk
     qh = mk[0].ast.targets[0].id
     probs = []
     p = path_avoiding(cfg, cfg.normal_succ(mk[0].id), {target[0].id}, avoid={a.id for a in add})
